@@ -264,7 +264,7 @@ fn extreme(t: &mut Tape) -> f64 {
 }
 
 pub fn gen_c04(t: &mut Tape) -> C04Case {
-    let cfg = GenCfg { nmax: 5, mmax: 12, allow_psd: true, allow_nonsym: true, allow_empty_cones: true, psd_max: 3, soc_max: 5, magnitude: 3.0, near_prob: 0.25, extreme_alpha: true, full_rank: false };
+    let cfg = GenCfg { nmax: 5, mmax: 12, allow_psd: true, allow_nonsym: true, allow_empty_cones: true, psd_max: 3, soc_max: 5, magnitude: 3.0, near_prob: 0.25, extreme_alpha: true, full_rank: false, p_scale_decades: 0.0 };
     let mut ps = match t.weighted(&[3, 1, 1, 4]) {
         0 => gen_feasible(t, &cfg),
         1 => gen_primal_infeasible(t, &cfg),
@@ -463,9 +463,9 @@ pub fn check_c04(c: &C04Case, ctx: &mut Ctx) -> CheckResult {
 
 fn cfg_for(run: &PropRun, large: bool) -> GenCfg {
     if large && !run.cfg.quick() {
-        GenCfg { nmax: 40, mmax: 90, allow_psd: true, allow_nonsym: true, allow_empty_cones: true, psd_max: 7, soc_max: 15, magnitude: 10.0, near_prob: 0.25, extreme_alpha: true, full_rank: false }
+        GenCfg { nmax: 40, mmax: 90, allow_psd: true, allow_nonsym: true, allow_empty_cones: true, psd_max: 7, soc_max: 15, magnitude: 10.0, near_prob: 0.25, extreme_alpha: true, full_rank: false, p_scale_decades: 0.0 }
     } else if large {
-        GenCfg { nmax: 20, mmax: 45, allow_psd: true, allow_nonsym: true, allow_empty_cones: true, psd_max: 5, soc_max: 10, magnitude: 5.0, near_prob: 0.25, extreme_alpha: true, full_rank: false }
+        GenCfg { nmax: 20, mmax: 45, allow_psd: true, allow_nonsym: true, allow_empty_cones: true, psd_max: 5, soc_max: 10, magnitude: 5.0, near_prob: 0.25, extreme_alpha: true, full_rank: false, p_scale_decades: 0.0 }
     } else {
         GenCfg::small()
     }
